@@ -215,8 +215,22 @@ def gen_lengths(rng):
     return f(), f(), f()
 
 
+def _proper_signed_permutations():
+    import itertools
+    out = []
+    for perm in itertools.permutations(range(3)):
+        for sg in itertools.product((1.0, -1.0), repeat=3):
+            m = [[sg[i] if j == perm[i] else 0.0 for j in range(3)] for i in range(3)]
+            if det3(m) > 0:
+                out.append(m)
+    return out
+
+
 def gen_rot(rng):
-    """random proper rotation from a unit quaternion"""
+    """random proper rotation from a unit quaternion; one in five is an exact axis permutation / half turn (the 24 proper
+    signed permutation matrices: bases with exactly three non-zero entries, zero diagonals, negative diagonals)"""
+    if rng.random() < 0.2:
+        return [list(r) for r in rng.choice(_proper_signed_permutations())]
     while True:
         q = [rng.gauss(0, 1) for _ in range(4)]
         n = math.sqrt(sum(x * x for x in q))
